@@ -23,6 +23,7 @@ import (
 	"strconv"
 	"strings"
 	"sync"
+	"sync/atomic"
 	"testing"
 	"time"
 
@@ -37,6 +38,7 @@ import (
 	"github.com/drand/drand/v2/crypto/vault"
 	"github.com/drand/drand/v2/internal/chain"
 	"github.com/drand/drand/v2/internal/chain/boltdb"
+	"github.com/drand/drand/v2/internal/chain/memdb"
 	"github.com/drand/drand/v2/internal/net"
 	"github.com/drand/drand/v2/internal/vlib"
 	proto "github.com/drand/drand/v2/protobuf/drand"
@@ -74,6 +76,12 @@ type vscScenario struct {
 	Env     []string      `json:"env"`     // scripted environment prefix: tick | req | agg
 	Budget  int           `json:"budget"`  // periods of the fair environment (run mode)
 	AggRace uint64        `json:"aggrace"` // run mode: the aggregator stores this round while tryNode is parked before its Put
+	// repair mode, interrupted corrections:
+	Backend string `json:"backend"`  // trimmed (default) | bolt (untrimmed) | memdb
+	AbortAt string `json:"abort_at"` // "beforePut": cancel the repair's context at the AbortN-th write attempt (hook
+	//                                   sync.beforePut); "afterOp": right after the AbortN-th store operation of the repair
+	AbortN  int `json:"abort_n"`
+	FailPut int `json:"fail_put"` // the FailPut-th write of the repair fails (nothing is written)
 }
 
 // ---------------------------------------------------------------- fabricated chain
@@ -272,6 +280,10 @@ type vscHarness struct {
 	quiet  bool              // suppress Put events (set-up)
 	aggGo  int64             // goroutine that plays the aggregator
 	poll   func()            // called at every iteration of settle (gates)
+	repairing    atomic.Bool  // a correction is running: count its store operations
+	ops, puts    atomic.Int64 // store operations / write attempts of the correction so far
+	attempts     atomic.Int64 // sync.beforePut hits of the correction
+	repairCancel context.CancelFunc
 	timedOut bool
 }
 
@@ -490,33 +502,82 @@ type vscObsStore struct {
 	h *vscHarness
 }
 
+var errVscInjected = errors.New("vsc: injected write failure")
+
+// afterOp: the environment may cancel the correction's context right after one of its store operations
+func (h *vscHarness) afterOp() {
+	if !h.repairing.Load() {
+		return
+	}
+	n := h.ops.Add(1)
+	if h.sc.AbortAt == "afterOp" && int(n) == h.sc.AbortN && h.repairCancel != nil {
+		h.tr.Emit("Abort", vlib.E{"at": "afterOp", "n": n})
+		h.repairCancel()
+	}
+}
+
+func (s *vscObsStore) sidOf(round uint64) int {
+	h := s.h
+	g := vscGoID()
+	if st := h.streamOfGo(g); st != nil {
+		h.ensureRecv(st, st.indexOfRound(round))
+		return st.sid
+	} else if g == h.aggGo {
+		return -1
+	}
+	return 0
+}
+
 func (s *vscObsStore) Put(ctx context.Context, b *common.Beacon) error {
 	h := s.h
 	if h.quiet {
 		return s.Store.Put(ctx, b)
 	}
-	g := vscGoID()
-	sid := 0
-	if st := h.streamOfGo(g); st != nil {
-		sid = st.sid
-		h.ensureRecv(st, st.indexOfRound(b.Round))
-	} else if g == h.aggGo {
-		sid = -1
-	}
+	sid := s.sidOf(b.Round)
 	h.rawMu.Lock()
-	defer h.rawMu.Unlock()
 	hb := int64(-1)
 	if l, err := s.Store.Last(context.Background()); err == nil {
 		hb = int64(l.Round)
 	}
-	err := s.Store.Put(ctx, b)
+	var err error
+	if h.repairing.Load() && h.sc.FailPut > 0 && int(h.puts.Add(1)) == h.sc.FailPut {
+		h.tr.Emit("Abort", vlib.E{"at": "failPut", "n": h.sc.FailPut})
+		err = errVscInjected
+	} else {
+		err = s.Store.Put(ctx, b)
+	}
 	res := "ok"
 	if err != nil {
 		res = "err"
+	} else if h.sc.Backend == "memdb" {
+		// the in-memory store silently keeps an entry it already has: say what is there now
+		if cur, gerr := s.Store.Get(context.Background(), b.Round); gerr == nil && !bytes.Equal(cur.Signature, b.Signature) {
+			res = "ignored"
+		}
 	}
 	same := b.Round <= vscChainLen && bytes.Equal(b.Signature, h.ch.beacons[b.Round].Signature)
 	h.tr.Emit("Put", vlib.E{"sid": sid, "round": b.Round, "verifies": h.ch.verifies(b), "same": same, "hb": hb, "res": res,
 		"sig": vscDigest(b.Signature)})
+	h.rawMu.Unlock()
+	h.afterOp()
+	return err
+}
+
+func (s *vscObsStore) Del(ctx context.Context, round uint64) error {
+	h := s.h
+	if h.quiet {
+		return s.Store.Del(ctx, round)
+	}
+	sid := s.sidOf(round)
+	h.rawMu.Lock()
+	err := s.Store.Del(ctx, round)
+	res := "ok"
+	if err != nil {
+		res = "err"
+	}
+	h.tr.Emit("Del", vlib.E{"sid": sid, "round": round, "res": res})
+	h.rawMu.Unlock()
+	h.afterOp()
 	return err
 }
 
@@ -600,6 +661,21 @@ func (h *vscHarness) snapshot() (head int64, rounds [][]any) {
 		}
 	}
 	return
+}
+
+// the rounds a cursor scan of the raw store delivers (as SyncChain and the public API read the chain)
+func (h *vscHarness) cursorRounds() []uint64 {
+	out := []uint64{}
+	_ = h.raw.Cursor(context.Background(), func(ctx context.Context, c chain.Cursor) error {
+		for b, err := c.First(ctx); b != nil && err == nil; b, err = c.Next(ctx) {
+			out = append(out, b.Round)
+			if len(out) > 4*vscChainLen {
+				break
+			}
+		}
+		return nil
+	})
+	return out
 }
 
 func (h *vscHarness) openStreams() [][]any {
@@ -701,14 +777,30 @@ func vscRunScenario(t *testing.T, tr *vlib.Trace, sc vscScenario, seed int64) {
 		budget = 150
 	}
 	tr.Emit("Reset", vlib.E{"scenario": sc.Name, "mode": sc.Mode, "chained": sc.Chained, "scheme": name, "start": sc.Start,
-		"target": sc.Target, "maxr": vscChainLen, "peers": peers, "corrupt": corrupt, "budget": budget, "harness": "beacon"})
+		"target": sc.Target, "maxr": vscChainLen, "peers": peers, "corrupt": corrupt, "budget": budget, "harness": "beacon", "backend": func() string {
+			if sc.Backend == "" {
+				return "trimmed"
+			}
+			return sc.Backend
+		}()})
 
 	// ---- base store, preloaded and (repair) corrupted
 	bctx := context.Background()
 	if sc.Chained && sc.Mode != "follow" { // createDBStore: only when the process knows its group
 		bctx = chain.SetPreviousRequiredOnContext(bctx)
 	}
-	raw, err := boltdb.NewBoltStore(bctx, lg, vscTempDir(t))
+	var raw chain.Store
+	switch sc.Backend {
+	case "", "trimmed":
+		sc.Backend, h.sc.Backend = "trimmed", "trimmed"
+		raw, err = boltdb.NewBoltStore(bctx, lg, vscTempDir(t))
+	case "bolt": // the untrimmed format (full beacons as JSON)
+		raw, err = boltdb.NewBoltStore(boltdb.IsATest(bctx), lg, vscTempDir(t))
+	case "memdb":
+		raw = memdb.NewStore(64)
+	default:
+		t.Fatalf("vsc: unknown backend %q", sc.Backend)
+	}
 	if err != nil {
 		t.Fatalf("vsc: bolt: %v", err)
 	}
@@ -728,6 +820,9 @@ func vscRunScenario(t *testing.T, tr *vlib.Trace, sc vscScenario, seed int64) {
 			} else {
 				b := ch.clone(r)
 				b.Signature = append([]byte{}, ch.badSig[r]...)
+				if sc.Backend == "memdb" { // its Put keeps an existing entry
+					_ = raw.Del(bctx, r)
+				}
 				err = raw.Put(bctx, b)
 			}
 			if err != nil {
@@ -746,6 +841,10 @@ func vscRunScenario(t *testing.T, tr *vlib.Trace, sc vscScenario, seed int64) {
 			round, _ := args[1].(uint64)
 			h.ensureRecv(st, st.indexOfRound(round))
 			tr.Emit("BeforePut", vlib.E{"sid": st.sid, "round": round})
+			if h.repairing.Load() && h.sc.AbortAt == "beforePut" && int(h.attempts.Add(1)) == h.sc.AbortN && h.repairCancel != nil {
+				tr.Emit("Abort", vlib.E{"at": "beforePut", "n": h.sc.AbortN})
+				h.repairCancel()
+			}
 		}
 	})
 
@@ -964,8 +1063,14 @@ func (h *vscHarness) repairMode(ctx context.Context, cs *chainStore) {
 		h.end(0, false, "", false, false)
 		return
 	}
+	interrupted := h.sc.AbortAt != "" || h.sc.FailPut > 0
+	rctx, rcancel := context.WithCancel(ctx)
+	defer rcancel()
+	h.repairCancel = rcancel
+	preCur := h.cursorRounds()
+	h.repairing.Store(true)
 	done := make(chan error, 1)
-	go func() { done <- cs.RunReSync(ctx, reported, peers, func(uint64, uint64) {}) }()
+	go func() { done <- cs.RunReSync(rctx, reported, peers, func(uint64, uint64) {}) }()
 	returned, ret := false, ""
 	ok := h.settle(sm, func() bool {
 		if returned {
@@ -981,15 +1086,44 @@ func (h *vscHarness) repairMode(ctx context.Context, cs *chainStore) {
 		}
 		return true
 	})
+	h.repairing.Store(false)
 	_, post := h.snapshot()
-	h.tr.Emit("Corrected", vlib.E{"returned": returned, "err": ret, "pre": pre, "post": post, "reported": reported})
-	h.end(0, returned, ret, ok, true)
+	h.tr.Emit("Corrected", vlib.E{"returned": returned, "err": ret, "pre": pre, "post": post, "reported": reported,
+		"interrupted": interrupted, "pre_cursor": preCur, "post_cursor": h.cursorRounds(), "ops": h.ops.Load()})
+	h.end(0, returned, ret, ok, !interrupted)
 }
 
 // ---------------------------------------------------------------- built-in directed scenarios
 
 func vscPT(first, later string, k int, head uint64) vscPeerType {
 	return vscPeerType{First: first, Later: later, K: k, Head: head}
+}
+
+// corrections interrupted between two store operations, on every back-end
+func vscRepairAbortScenarios() []vscScenario {
+	H := vscPT("Honest", "Honest", 0, 6)
+	var out []vscScenario
+	for _, be := range []string{"trimmed", "bolt", "memdb"} {
+		for _, chained := range []bool{true, false} {
+			c := "u"
+			if chained {
+				c = "c"
+			}
+			base := vscScenario{Mode: "repair", Chained: chained, Backend: be, Start: 5, Target: 5,
+				Corrupt: [][]any{{float64(2), "bad"}, {float64(4), "bad"}}, Peers: []vscPeerType{H, H, H}}
+			for _, v := range []struct {
+				tag      string
+				at       string
+				n, fails int
+			}{{"after-op1", "afterOp", 1, 0}, {"after-op3", "afterOp", 3, 0}, {"before-put2", "beforePut", 2, 0}, {"fail-put1", "", 0, 1}, {"fail-put2", "", 0, 2}} {
+				sc := base
+				sc.Name = fmt.Sprintf("repair-abort-%s-%s-%s", be, v.tag, c)
+				sc.AbortAt, sc.AbortN, sc.FailPut = v.at, v.n, v.fails
+				out = append(out, sc)
+			}
+		}
+	}
+	return out
 }
 
 func vscBuiltin(quick bool) []vscScenario {
@@ -1059,6 +1193,10 @@ func TestVerifSyncClient(t *testing.T) {
 	}
 	if os.Getenv("VERIF_NOBUILTIN") == "" {
 		scs = append(scs, vscBuiltin(quick)...)
+		scs = append(scs, vscRepairAbortScenarios()...)
+	}
+	if os.Getenv("VERIF_ONLY") == "repair-abort" { // light entry point (also used by the C02 engine)
+		scs = vscRepairAbortScenarios()
 	}
 	for i, sc := range scs {
 		vscRunScenario(t, tr, sc, seed*1000+int64(i))
